@@ -311,3 +311,433 @@ def validate(ctx, lays, traces, batch_events=40000):
     if cur:
         batches.append(cur)
     return tlc_validate(ctx, batches)
+
+
+# ------------------------------------------------------------------ judging
+FWD = ("next", "nextauto")
+BWD = ("prev", "prevauto")
+SEEKS = ("seekfirst", "seeklast", "seekle", "seekge")
+
+
+def abs_fn(lay):
+    """Render a timestamp relative to the layout's abstract times: '4', '4+1' (ns after), '5-2'."""
+    pts = lay["points"]
+
+    def f(ts):
+        if ts in pts:
+            return str(pts.index(ts))
+        if ts < pts[0]:
+            return "0-%d" % (pts[0] - ts)
+        for i in range(1, len(pts)):
+            if ts < pts[i]:
+                return "%d-%d" % (i, pts[i] - ts) if pts[i] - ts < ts - pts[i - 1] else "%d+%d" % (i - 1, ts - pts[i - 1])
+        return "%d+%d" % (len(pts) - 1, ts - pts[-1])
+    return f
+
+
+def render(trace, lay, upto=None, marks=None):
+    f = abs_fn(lay)
+    ch = trace["chan"]
+    out = ["channel %s mode %s; stored (abstract time, write id) %s; domains %s; index domains %s; conc %s" % (
+        ch, trace["mode"], [(s[1], s[2]) for s in lay["samples"][ch]],
+        [[f(p[0]), f(p[1])] for p in lay["pointers"][ch]], [[f(p[0]), f(p[1])] for p in lay["pointers"]["I"]],
+        json.dumps(lay["conc"]))]
+    for i, e in enumerate(trace["events"][:upto], 1):
+        if e.get("panic") or e.get("hang") or e.get("guard"):
+            out.append("%d %s %s -> %s" % (i, e["c"], e.get("k", ""), "PANIC " + e["panic"] if e.get("panic") else
+                                            ("HANG (did not return within the watchdog)" if e.get("hang") else "NOT EXECUTED: " + e["guard"])))
+            continue
+        arg = ""
+        if e["c"] in ("seekle", "seekge"):
+            arg = "(%s)" % f(e["t"])
+        elif e["c"] in ("next", "prev"):
+            arg = "(%s=%dns)" % (e.get("k", ""), e.get("span", 0))
+        out.append("%d %s%s bounds=[%s,%s) chunk=%d -> ok=%s view=[%s,%s) frame=%s valid=%s err=%s%s" % (
+            i, e["c"], arg, f(e["b"][0]), f(e["b"][1]), e["chunk"], e["ok"], f(e["view"][0]), f(e["view"][1]),
+            [f(p[0]) if p[0] >= 0 else "?" for p in e["frame"]], e["valid"], (e.get("err") or "-")[:100],
+            ("   <== " + ",".join(marks[i])) if marks and i in marks else ""))
+    return out
+
+
+def err_class(msg):
+    m = msg.lower()
+    if "eof" in m:
+        return "EOF"
+    if "failed to resolve position" in m:
+        return "resolve-position"
+    if "discontinuous" in m or "does not exist in the index" in m:
+        return "discontinuous"
+    return "other"
+
+
+def classify(trace, lay, k, viol):
+    """Structural signature of the first verdict-bearing violation (event index k, 1-based) of a
+    trace. The D-numbers name the defect families described in known_findings.json."""
+    evs = trace["events"]
+    e = evs[k - 1]
+    ch = trace["chan"]
+    stored = sorted((s[0], s[2]) for s in lay["samples"][ch])
+    idx_ts = set(s[0] for s in lay["samples"]["I"])
+    c = e["c"]
+
+    def read(a, b):
+        return [p for p in stored if a <= p[0] < b]
+    j = k - 1
+    while j > 0 and evs[j - 1]["c"] not in SEEKS + ("open", "setbounds"):
+        j -= 1
+    seek = evs[j - 1] if j > 0 else None
+    since = evs[j:k - 1]
+    same = FWD if c in FWD else BWD
+    other = BWD if c in FWD else FWD
+    turn = any(x["c"] in other for x in since)
+    auto_before = any(x["c"] in ("nextauto", "prevauto") for x in since)
+    empty_before = any(x["c"] in same and not read(x["view"][0], x["view"][1]) for x in since)
+    seek_out = bool(seek and seek["c"] in ("seekle", "seekge") and
+                    not (seek["b"][0] <= seek["view"][0] <= seek["b"][1]))
+    exp = read(e["view"][0], e["view"][1])
+    got = [tuple(p) for p in e["frame"]]
+    missing = [p for p in exp if p not in got]
+    extra = [p for p in got if p not in exp]
+    if c in SEEKS + ("open", "setbounds"):
+        return "C10 %s %s" % (c, "+".join(sorted(viol)))
+    if seek_out:
+        return "C10 D6 %s after %s positioned outside the bounds" % (c, seek["c"])
+    if c in ("next", "prev"):
+        diff = ("misses samples" if missing and not extra else "returns samples outside the view" if extra and not missing
+                else "misses and adds samples" if missing else "+".join(sorted(viol)))
+        if turn or auto_before:
+            return "C10 D4 %s after a direction change or automatic step %s" % (c, diff)
+        if empty_before:
+            return "C10 D3 %s after an earlier sample-free view of the same run %s" % (c, diff)
+        return "C10 %s %s %s" % (c, "+".join(sorted(viol)), diff)
+    # automatic steps
+    if "UnexpectedError" in viol:
+        cls = err_class(e.get("err", ""))
+        if c == "prevauto" and cls in ("EOF", "resolve-position"):
+            return "C10 D7 prevauto fails with an index error (%s) although samples remain" % cls
+        return "C10 D2 %s fails with an error (%s) although samples remain" % (c, cls)
+    if c == "nextauto" and not missing and len(extra) == 1 and extra[0][0] == e["view"][1] and e["view"][0] not in idx_ts:
+        return "C10 D1 nextauto returns the sample at view.end; the view starts between samples"
+    if turn:
+        ctxs = " after a direction change"
+    else:
+        ctxs = ""
+    if missing and extra:
+        diff = "misses and adds samples"
+    elif missing:
+        diff = "misses samples"
+    elif extra:
+        diff = "returns samples outside the view"
+    else:
+        diff = "+".join(sorted(viol))
+    return "C10 D2 %s %s%s" % (c, diff, ctxs)
+
+
+def first_violations(traces, res):
+    """(tid, k, viol) of the first verdict-bearing event per trace; plus panic / hang / guard events."""
+    out = []
+    for tid, tr in enumerate(traces):
+        ks = res.get(tid, {})
+        bad = sorted(k for k, (v, d) in ks.items() if set(v) & set(VERDICT))
+        if bad:
+            k = bad[0]
+            out.append((tid, k, sorted(set(ks[k][0]) & set(VERDICT))))
+            continue
+        for i, e in enumerate(tr["events"], 1):
+            if e.get("panic"):
+                out.append((tid, i, ["Panic"]))
+            elif e.get("hang"):
+                out.append((tid, i, ["Hang"]))
+            elif e.get("guard"):
+                out.append((tid, i, ["Guard"]))
+    return out
+
+
+def nonevent_signature(trace, k, kind):
+    e = trace["events"][k - 1]
+    if kind == "Panic":
+        msg = e["panic"]
+        if "index out of range [-1]" in msg:
+            msg = "index out of range [-1]"
+        return "C10 D2 panic in %s.Iterator %s: %s" % ("unary" if trace["mode"] == "unary" else "cesium", e["c"], msg[:80])
+    if kind == "Hang":
+        return "C10 D2 cesium.Iterator %s never returns (stream goroutine died)" % e["c"]
+    return "C10 D5 %s recurses without end: view one nanosecond outside the bounds" % e["c"]
+
+
+def single_job(jobs_by_id, trace):
+    job = jobs_by_id[trace["layout"]]
+    run = [r for r in job["runs"] if r["rid"] == trace["rid"]][0]
+    return dict(job, runs=[dict(run, chans=[trace["chan"]], modes=[trace["mode"]] if trace["mode"] == "unary" else ["unary", "stream"])])
+
+
+def judge(ctx, jobs, lays, traces, res, stats):
+    """Group first violations by signature, re-run one instance of each from scratch, report."""
+    jobs_by_id = {j["id"]: j for j in jobs}
+    groups = {}
+    for tid, k, viol in first_violations(traces, res):
+        tr = traces[tid]
+        lay = lays[tr["layout"]]
+        sig = nonevent_signature(tr, k, viol[0]) if viol[0] in ("Panic", "Hang", "Guard") else classify(tr, lay, k, viol)
+        g = groups.setdefault(sig, [])
+        g.append((len(tr["events"]), tid, k, viol))
+    stats["violating_traces"] = sum(len(g) for g in groups.values())
+    stats["signatures"] = {s: len(g) for s, g in sorted(groups.items())}
+    if not groups:
+        return
+    # reproduce: the shortest instance of every signature, all in one harness run
+    picks = {}
+    rjobs = []
+    for sig, g in sorted(groups.items()):
+        n, tid, k, viol = min(g)
+        job = dict(single_job(jobs_by_id, traces[tid]), id=len(rjobs))
+        picks[sig] = (tid, k, viol, job)
+        rjobs.append(job)
+    guard_sigs = [s for s in picks if s.startswith("C10 D5 ")]
+    _, rlays, rtraces, _ = run_harness(ctx, rjobs, "repro", workers=4)
+    rres, _ = validate(ctx, rlays, rtraces)
+    rfirst = {}
+    for rtid, rk, rviol in first_violations(rtraces, rres):
+        rtr = rtraces[rtid]
+        rfirst[(rtr["layout"], rtr["chan"], rtr["mode"])] = (rtid, rk, rviol)
+    for sig, (tid, k, viol, job) in sorted(picks.items()):
+        tr = traces[tid]
+        lay = lays[tr["layout"]]
+        got = rfirst.get((job["id"], tr["chan"], tr["mode"]))
+        if not got or got[1] != k or got[2] != viol:
+            ctx.notes.append("not reproduced on re-run: %s (first %s, re-run %s)" % (sig, (k, viol), got and got[1:]))
+            stats["not_reproduced"] = stats.get("not_reproduced", 0) + 1
+            continue
+        marks = {kk: vv[0] for kk, vv in res.get(tid, {}).items() if vv[0]}
+        if viol[0] in ("Panic", "Hang", "Guard"):
+            marks = {k: viol}
+        rep = {"job": job, "chan": tr["chan"], "mode": tr["mode"], "event": k, "clauses": viol,
+               "trace": render(tr, lay, upto=k, marks=marks), "instances_this_run": len(groups[sig]),
+               "cmd": "python3 tools/verif.py replay C10 <this file>"}
+        if sig in guard_sigs:
+            crashed, tail = confirm_crash(ctx, job)
+            if not crashed:
+                ctx.notes.append("recursion guard fired but the unguarded run did not crash: " + tail[-300:])
+                continue
+            rep["crash_output"] = tail[-1500:]
+        what = "%s [%s iterator, channel %s] clauses %s at command %d:\n    %s" % (
+            sig, tr["mode"], tr["chan"], ",".join(viol), k, "\n    ".join(rep["trace"][-min(6, len(rep["trace"])):]))
+        ctx.report(sig, what, rep)
+
+
+def confirm_crash(ctx, job):
+    """Run the guarded command for real in a process of its own: the recursion kills it."""
+    inp = ctx.path("crash_job.ndjson")
+    out = ctx.path("crash_out.ndjson")
+    with open(inp, "w") as f:
+        f.write(json.dumps(job) + "\n")
+    rc, text, wall = ctx.go_test("cesium", ".", HARNESS, "^TestVerifIterRecord$", tag="crash", timeout=300,
+                                 env={"VERIF_IN": inp, "VERIF_OUT": out, "VERIF_WORKERS": 1, "VERIF_NOGUARD": "1"})
+    return (rc != 0 and "stack overflow" in text), text[:4000]
+
+
+# ------------------------------------------------------------------ informational checks (python side)
+def judged_counts(traces):
+    """How many commands of each kind were judged (iterator positioned and not failed)."""
+    cnt = {}
+    for tr in traces:
+        failed = False
+        pos = False
+        for e in tr["events"]:
+            if e.get("panic") or e.get("hang") or e.get("guard"):
+                break
+            c = e["c"]
+            if c in ("open", "setbounds"):
+                failed, pos = False, False
+            elif c in SEEKS:
+                failed, pos = bool(e.get("err")), bool(e["ok"])
+                cnt[c] = cnt.get(c, 0) + 1
+            else:
+                if pos and not failed:
+                    cnt[c] = cnt.get(c, 0) + 1
+                    cnt["steps_with_data"] = cnt.get("steps_with_data", 0) + (1 if e["frame"] else 0)
+                    cnt["multi_series_frames"] = cnt.get("multi_series_frames", 0) + (1 if len(e["series"]) > 1 else 0)
+                else:
+                    cnt["unjudged_steps"] = cnt.get("unjudged_steps", 0) + 1
+                if e.get("err"):
+                    failed = True
+    return cnt
+
+
+def series_anomalies(traces):
+    """Series TimeRange must contain its samples and series must be in time order (drift level)."""
+    n = 0
+    sample = None
+    for tr in traces:
+        for i, e in enumerate(tr["events"], 1):
+            if e.get("panic") or e.get("hang") or e.get("guard") or e.get("err"):
+                break
+            off = 0
+            prev_end = None
+            for s in e.get("series", []):
+                part = e["frame"][off:off + s[2]]
+                off += s[2]
+                bad = any(p[0] >= 0 and not (s[0] <= p[0] < s[1]) for p in part) or (prev_end is not None and s[0] < prev_end)
+                prev_end = s[1]
+                if bad:
+                    n += 1
+                    if sample is None:
+                        sample = "layout %d rid %d chan %s mode %s event %d" % (tr["layout"], tr["rid"], tr["chan"], tr["mode"], i)
+    return n, sample
+
+
+# ------------------------------------------------------------------ entry points
+def run(ctx):
+    thorough = ctx.tier == "thorough"
+    # 1. design check
+    n, chunks = (5, [1, 2, 3]) if thorough else (4, [1, 2, 3])
+    r = ctx.tlc(AREA, "CesiumIter", "mc.cfg", files={"mc.cfg": mc_cfg(n, chunks)}, tag="mc", timeout=3000,
+                workers=6, coverage=thorough)
+    design = {"N": n, "chunks": chunks, "distinct": r.distinct, "generated": r.generated, "violated": r.violated,
+              "wall_s": round(r.wall, 1), "coverage_zero": r.coverage_zero[:10]}
+    if r.violated:
+        raise vlib.Inconclusive("design spec CesiumIter violates %s: the clauses do not imply the traversal claim" % r.violated)
+    states, trans = r.distinct, r.generated
+    # 2. layouts, 3. command sequences
+    T, layouts = gen_layouts(ctx, thorough)
+    maxt = 2 * T + 1
+    fams, gst = gen_seqs(ctx, thorough, maxt)
+    states += gst[0]
+    trans += gst[1]
+    n_layouts, concs_per, runs_per = (60, 3, 100) if thorough else (14, 2, 40)
+    jobs = make_jobs(ctx, layouts, fams, maxt, n_layouts, concs_per, runs_per, thorough)
+    # 4. record
+    summ, lays, traces, wall = run_harness(ctx, jobs, "rec", workers=8 if thorough else 6, timeout=2400)
+    status = {}
+    for l in lays.values():
+        status[l["status"]] = status.get(l["status"], 0) + 1
+    if status.get("error"):
+        bad = [l for l in lays.values() if l["status"] == "error"][0]
+        raise vlib.Inconclusive("layout construction failed: %s" % bad.get("note"))
+    if status.get("ok", 0) < max(3, len(jobs) // 3):
+        raise vlib.Inconclusive("too few usable layouts: %s" % status)
+    # 5. validate
+    res, tstats = validate(ctx, lays, traces)
+    states += tstats["distinct"]
+    trans += tstats["generated"]
+    # 6. judge
+    stats = {"layout_status": status, "layouts_distinct_generated": len(layouts), "traces": len(traces),
+             "events": summ["events"], "go_wall_s": round(wall, 1), "panics": summ["panics"]}
+    judge(ctx, jobs, lays, traces, res, stats)
+    drift = {}
+    for tid, ks in res.items():
+        for k, (v, d) in ks.items():
+            for x in d:
+                drift[x] = drift.get(x, 0) + 1
+    stats["drift_clause_counts"] = drift
+    stats["judged"] = judged_counts(traces)
+    nser, sser = series_anomalies(traces)
+    if nser:
+        ctx.notes.append("series TimeRange anomalies (drift level): %d, e.g. %s" % (nser, sser))
+    # vacuity guards
+    jd = stats["judged"]
+    need = ["seekfirst", "seeklast", "seekle", "seekge", "next", "prev", "nextauto", "prevauto"]
+    lack = [c for c in need if jd.get(c, 0) == 0]
+    multi = sum(1 for l in lays.values() if l["status"] == "ok" and any(len(l["pointers"][ch]) > 1 for ch in ("D", "V", "I")))
+    stats["layouts_multi_domain"] = multi
+    stats["modes"] = {m: sum(1 for t in traces if t["mode"] == m) for m in ("unary", "stream")}
+    if lack or multi == 0 or jd.get("steps_with_data", 0) == 0 or not stats["modes"]["stream"]:
+        raise vlib.Inconclusive("vacuous run: commands never judged %s, multi-domain layouts %d, stats %s" % (lack, multi, jd))
+    f = abs_fn(lays[traces[0]["layout"]]) if traces else None
+    samples = []
+    for tr in traces[:2]:
+        samples.append(render(tr, lays[tr["layout"]], upto=6))
+    cov = {
+        "states": states, "transitions": trans,
+        "traces_validated_against_impl": len(traces),
+        "samples": samples,
+        "exhaustive": False,
+        "design_run": design,
+        "command_sequences": {k: len(v) for k, v in fams.items()},
+        "harness_stats": stats,
+        "rule": "CesiumIter.tla checked exhaustively (every layout over a %d-point time line, chunk sizes 1-3: the per-step clauses "
+                "imply exactly-once traversal). Stored layouts = CesiumStore.tla scripts (TLC simulation, T=4, deletes, early "
+                "writer starts; every prefix is a layout) replayed into a real cesium.DB under seeded concretisations (3 "
+                "timestamp maps, data types, file caps forcing rollover). TLC-generated command sequences (bounded-exhaustive "
+                "mixed depth 4, sweeps with one turn, random depth 8 with SetBounds) x bounds x chunk sizes {1,2,3,1e5} driven "
+                "through unary.Iterator and cesium.Iterator; after every command View/Value/Valid/Error recorded and every "
+                "clause of the spec evaluated by TLC (CesiumIterTrace.tla) on the recorded transition" % (n + 1),
+        "notes": ctx.notes[:20],
+    }
+    return ctx.finish("model_checking", cov, [
+        "steps of an iterator whose last seek returned false, or that reported an Error(), are not judged until the next seek",
+        "an error left by an automatic step when no sample remains in the direction of travel is not a violation",
+        "an automatic step over index samples for which the data channel has no data may return an empty, invalid frame as long "
+        "as the view moves on (drift clause AutoData)",
+        "seek positions are constrained at drift level only; span ends (view.end + span) likewise",
+        "layouts the store harness marks tainted (known C04 delete defect) or whose full read differs from the store model are skipped",
+    ])
+
+
+def replay(ctx, path):
+    with open(path) as f:
+        obj = json.load(f)
+    job = dict(obj["job"], id=0)
+    _, lays, traces, _ = run_harness(ctx, [job], "replay", workers=1)
+    res, _ = validate(ctx, lays, traces)
+    hits = [(tid, k, v) for tid, k, v in first_violations(traces, res)
+            if traces[tid]["chan"] == obj["chan"] and traces[tid]["mode"] == obj["mode"]]
+    for tid, k, v in hits:
+        tr = traces[tid]
+        sig = nonevent_signature(tr, k, v[0]) if v[0] in ("Panic", "Hang", "Guard") else classify(tr, lays[tr["layout"]], k, v)
+        print("VIOLATION property=C10 replay=%s" % path)
+        print("  " + sig)
+        for ln in render(tr, lays[tr["layout"]], upto=k, marks={k: v}):
+            print("    " + ln)
+        return 1
+    print("replay: the recorded commands satisfy every clause on the current tree")
+    return 0
+
+
+def selftest(ctx):
+    """Binding self-test: a consistent synthetic trace is accepted; each single corruption is flagged
+    with the expected clause."""
+    stored = [[2, 1], [4, 2], [6, 3], [9, 4]]
+
+    def ev(c, view, frame, valid, t=0, target=0, ok=True):
+        return {"ev": "cmd", "c": c, "t": t, "target": target, "b": [1, 11], "chunk": 2, "view": view, "frame": frame,
+                "valid": valid, "ok": ok, "err": ""}
+    good = [{"ev": "layout", "tid": 0, "stored": stored},
+            ev("open", [11, 11], [], False),
+            ev("seekfirst", [2, 2], [], False),
+            ev("next", [2, 5], [[2, 1], [4, 2]], True, target=5),
+            ev("nextauto", [5, 10], [[6, 3], [9, 4]], True),
+            ev("next", [10, 11], [], False, target=12),
+            ev("prev", [7, 10], [[9, 4]], True, target=7)]
+    cases = [("good", good, None, None)]
+
+    def corrupt(name, idx, clause, **kw):
+        t = json.loads(json.dumps(good))
+        t[idx].update(kw)
+        cases.append((name, t, idx, clause))
+    corrupt("dropped sample", 3, "FrameIsView", frame=[[2, 1]])
+    corrupt("views overlap by one tick", 4, "AdjFwd", view=[4, 10], frame=[[4, 2], [6, 3], [9, 4]])
+    corrupt("sample at view end returned", 3, "FrameIsView", frame=[[2, 1], [4, 2], [6, 3]])
+    corrupt("view outside bounds", 5, "InBounds", view=[10, 12])
+    corrupt("wrong order", 4, "FrameIsView", frame=[[9, 4], [6, 3]])
+    corrupt("seekfirst skips a sample", 2, "SeekFirstNoSkip", view=[3, 3])
+    corrupt("stale value", 3, "FrameIsView", frame=[[2, 1], [4, 7]])
+    batches = []
+    for i, (name, t, idx, clause) in enumerate(cases):
+        t = json.loads(json.dumps(t))
+        t[0]["tid"] = i
+        batches.append([json.dumps(e) for e in t])
+    res, _ = tlc_validate(ctx, [sum(batches, [])])
+    ok = True
+    for i, (name, t, idx, clause) in enumerate(cases):
+        got = res.get(i, {})
+        verdicts = {k: set(v[0]) & set(VERDICT) for k, v in got.items() if set(v[0]) & set(VERDICT)}
+        if clause is None:
+            good_ok = not verdicts
+            print("selftest %-32s %s" % (name, "accepted" if good_ok else "REJECTED %s" % verdicts))
+            ok = ok and good_ok
+        else:
+            hit = clause in verdicts.get(idx, set())
+            print("selftest %-32s %s" % (name, "flagged %s at event %d" % (clause, idx) if hit else "MISSED (%s)" % verdicts))
+            ok = ok and hit
+    return 0 if ok else 1
